@@ -12,6 +12,7 @@ TRUSTED = [
     "profile storage (SQLite, gob) is a map from user to profile; the harness reads the raw rows of every user before and after each request",
     "cryptographic verification of a submitted U2F registration / TOTP code is an input of the model; the harness produces genuine ones with a software U2F / WebAuthn ('none' attestation) token and the TOTP secret",
     "the group directory is gitdb on local directories (the production user-info backend, configured through the YAML keys) and an unparsable LDAP URL for 'directory does not answer'; a real LDAP server is not exercised",
+    "go/ast extractor table of profile-store call sites (tools/extract/c08.go): syntactic classification of the user-name argument",
     "the clock of the production admincache.Cache is replaced through an accessor overlaid into keymasterd/admincache at check time (harness/admincache/export.go); Get and Put see the same reading within one IsAdminUser call in the traces (distinct readings are exercised op by op in the package-level harness)",
 ]
 
@@ -41,13 +42,13 @@ def run(ctx):
                                         extra_overlay=export, timeout=600)
     if result is not None:
         good = True
-        for f in ("Consts.v", "ConstsC08.v"):
+        for f in ("Consts.v", "ConstsC08.v", "Tables.v"):
             rc, out = ctx.coqc(os.path.join(ctx.work, "gen", f))
             if rc != 0:
                 ctx.broken.append(("obligation", "gen:" + f, out[-1500:]))
                 good = False
         if good:
-            ctx.gen_obligations("Obl_C08.v", ["c08_bits", "c08_u2f_bit_distinct", "c08_five_minutes", "c08_reevaluated_every_5min"])
+            ctx.gen_obligations("Obl_C08.v", ["c08_bits", "c08_u2f_bit_distinct", "c08_five_minutes", "c08_reevaluated_every_5min", "c08_store_sites"])
         res = ctx.eval_cases(os.path.join(ctx.work, "CasesC08.v"), "c08_cells_vs_model")
         if res is not None:
             corr(ctx, res, "c08_mismatches", "response class and stored rows of %s management requests = Model.Authz.step" % res.get("c08_ncases", "?"), "CasesC08.idx")
